@@ -6,6 +6,7 @@ CONSTANTS
   MaxUid = 100000
   MaxCode = 100000
   NFlagSets = 2
+  SyncLit = FALSE
   Kinds = {"NOOP", "LOGIN", "SELECT", "UNSELECT", "STATUS", "LIST", "SEARCH", "ESEARCH", "FETCH", "EXPUNGE", "LOGOUT"}
   Greetings = {"OK"}
 INIT TraceInit
